@@ -28,6 +28,9 @@ type Peer struct {
 	HBFilter      func(m *RxMsg) bool
 	AnswerReports bool
 	ReportCause   uint8
+	// OnAssocReq, when set, is called for every Association Setup Request the
+	// agent sends to this peer (agent-initiated association)
+	OnAssocReq func(req *message.AssociationSetupRequest)
 
 	Associated bool
 	Sessions   map[uint64]*CPSession // by CP SEID
@@ -84,6 +87,10 @@ func (p *Peer) onDatagram(src string, data []byte) {
 		}
 		if ans {
 			p.SendMsg(message.NewHeartbeatResponse(x.SequenceNumber, ie.NewRecoveryTimeStamp(p.TS)))
+		}
+	case *message.AssociationSetupRequest:
+		if p.OnAssocReq != nil {
+			p.OnAssocReq(x)
 		}
 	case *message.SessionReportRequest:
 		if p.AnswerReports {
